@@ -40,7 +40,8 @@ def cases(tier, seed):
         yield dict(op=rnd.choice(['get', 'move', 'move']), n=k,
                    outcomes=[rnd.choice(['success', 'success', 'warning', 'failure'])
                              for _ in range(k)],
-                   pending=rnd.choice(['none', 'after-each', 'random']),
+                   pending=rnd.choice(['none', 'after-each', 'random', 'zero-remaining']),
+                   twice=rnd.random() < 0.5,
                    in_file=rnd.random() < 0.4, mid=rnd.choice([0, 1, 255, 65535, rnd.randrange(65536)]),
                    stall=rnd.random() < 0.2, maxlen=rnd.choice([64, 256, 16384]),
                    dest=rnd.choice(['real', 'real', 'never-answers-release']),
@@ -104,10 +105,25 @@ def _get(case):
         # failure, cancel -- every non-pending status ends the operation
         final_status = rnd.choice([0x0000, 0x0000, 0xB000, 0xB000, 0xA702, 0xC001, 0xFE00])
 
+        subs1 = subs
+        subs2 = []
+        if case.get('twice'):
+            sop2 = rnd.choice([CT, MR])
+            subs2 = [dict(ds=_inst(rnd, 90 + k, sop2), sop=sop2, mid=900 + k, outcome='success')
+                     for k in range(rnd.randint(1, 2))]
+
         def next_store(peer):
             i = state['i']
+            subs = subs1 if state.get('round', 1) == 1 else subs2
             if i >= len(subs):
                 g = state['get']
+                if case['pending'] == 'zero-remaining' and not state.get('zero_sent'):
+                    # progress report after the last sub-operation: pending, nothing remaining
+                    state['zero_sent'] = True
+                    peer.send_message(g['pcid'], {0x0002: GET, 0x0100: 0x8010,
+                                                  0x0120: g['fields'].get(0x0110),
+                                                  0x0800: 0x0101, 0x0900: 0xFF00, 0x1020: 0,
+                                                  0x1021: len(subs), 0x1022: 0, 0x1023: 0})
                 peer.send_message(g['pcid'], {0x0002: GET, 0x0100: 0x8010,
                                               0x0120: g['fields'].get(0x0110), 0x0800: 0x0101,
                                               0x0900: final_status, 0x1020: 0, 0x1021: len(subs),
@@ -132,6 +148,12 @@ def _get(case):
         def on_message(peer, m):
             f = m['fields']
             if f.get(0x0100) == 0x0010:
+                if 'get' in state:
+                    state['round'] = 2
+                    state['i'] = 0
+                    state['zero_sent'] = False
+                    state['rsps1'] = state['rsps']
+                    state['rsps'] = []
                 state['get'] = m
                 next_store(peer)
             elif f.get(0x0100) == 0x8001:
@@ -144,7 +166,8 @@ def _get(case):
         class Cli(applicationentity.ClientAE):
             def on_receive_store(self, context, ds):
                 handled.append(1)
-                return OUT[subs[len(handled) - 1]['outcome']]
+                allsubs = subs1 + subs2
+                return OUT[allsubs[min(len(handled), len(allsubs)) - 1]['outcome']]
         cli = world.make_ae(Cli, 'CLI', [rc.IMPLICIT_LE], case['maxlen'])
         cli.timeout = 300
         cli.add_scu(sopclass.qr_get_scu)
@@ -156,6 +179,7 @@ def _get(case):
             store_user.store_in_file = True
         cli.add_scu(store_user)
         got = []
+        got2 = []
         out = {}
 
         def user():
@@ -164,16 +188,18 @@ def _get(case):
                                               'port': ADDR[1]}) as assoc:
                     q = pydicom.Dataset()
                     q.PatientName = 'Q'
-                    for ctx, ds in assoc.get_scu(GET)(q, case['mid']):
-                        if hasattr(ds, 'read'):
-                            b = bytes(ds.data)
-                            i = b.find(b'1.2.826.0.1.19.')
-                            j = i
-                            while j < len(b) and (48 <= b[j] <= 57 or b[j] == 46):
-                                j += 1
-                            got.append(b[i:j].decode())
-                        else:
-                            got.append(str(ds.SOPInstanceUID))
+                    for rnd_no in (1, 2) if case.get('twice') else (1,):
+                        dst = got if rnd_no == 1 else got2
+                        for ctx, ds in assoc.get_scu(GET)(q, case['mid']):
+                            if hasattr(ds, 'read'):
+                                b = bytes(ds.data)
+                                i = b.find(b'1.2.826.0.1.19.')
+                                j = i
+                                while j < len(b) and (48 <= b[j] <= 57 or b[j] == 46):
+                                    j += 1
+                                dst.append(b[i:j].decode())
+                            else:
+                                dst.append(str(ds.SOPInstanceUID))
                 out['done'] = True
             except Exception as e:  # pylint: disable=broad-except
                 import traceback
@@ -187,7 +213,12 @@ def _get(case):
         if 'exc' in out:
             v('retrieve-user-failed exc=%s' % type(out['exc']).__name__, out['tb'])
             return _fin(world, viol, case)
-        rsps = state['rsps']
+        rsps = state.get('rsps1', state['rsps']) if case.get('twice') else state['rsps']
+        if case.get('twice'):
+            want2 = [str(s_['ds'].SOPInstanceUID) for s_ in subs2]
+            if got2 != want2:
+                v('second-retrieve-on-same-association-differs pending=%s' % case['pending'],
+                  'second C-GET: sent %r yielded %r (first: %r)' % (want2, got2, got))
         if len(rsps) != len(subs):
             v('store-requests-not-answered-once', '%d requests, %d responses' % (len(subs),
                                                                                 len(rsps)))
